@@ -200,7 +200,7 @@ def op_observe():
 def alphabet(kind, reduced=False):
     import coxeter.shapes as S
 
-    cls = getattr(S, kind)
+    cls = getattr(S, kind.split("_")[0])
     ops = []
     props = C08.settable(kind)
     if reduced:
@@ -313,7 +313,7 @@ def _ob(kind, variant, ops, tier):
     import coxeter.shapes as S
     from symx.loader import functions_encoded
 
-    cls = getattr(S, kind)
+    cls = getattr(S, kind.split("_")[0])
     fl = [cls._rescale]
     for o in ops:
         base = o.label.split("[")[0]
@@ -338,7 +338,7 @@ def obligations(tier, seed):
     global FULL_OBS
     FULL_OBS = tier == "thorough"
     obs = []
-    kinds = [("Polygon", None), ("ConvexPolygon", None), ("ConvexSpheropolygon", None), ("Polyhedron", None), ("Polyhedron", "tri_cube"),
+    kinds = [("Polygon", None), ("Polygon_cw", None), ("ConvexPolygon", None), ("ConvexSpheropolygon", None), ("Polyhedron", None), ("Polyhedron", "tri_cube"),
              ("Polyhedron", "skew"), ("ConvexPolyhedron", None), ("ConvexSpheropolyhedron", None)]
     d1 = [k for k in kinds if not (tier == "quick" and k[1] == "skew")]
     for kind, var in d1:
